@@ -105,7 +105,7 @@ Definition add_index (target : sheet) (r : rule) : nat :=
          end
   else if is_namespace r then
     if existsb is_namespace target then after_last_idx is_namespace target
-    else first_idx (fun x => negb (is_import x) && negb (is_kind K_CHARSET x)) target
+    else after_last_idx (fun x => is_import x || is_kind K_CHARSET x) target
   else length target.
 
 (* ... and the insertion; an @namespace with the prefix and URI of an
